@@ -144,6 +144,121 @@ fn partition(seed: u64, style: i64, stereo: bool) -> impl FnMut() -> usize {
     }
 }
 
+impl C20 {
+    /// kind 3: play() calls interleaved with rewind / rewind_loop / set_frame on the recording backend,
+    /// against a reference position model. A position command may (the implementation does) write
+    /// R13 := 0 to reset the envelope; that write is accepted but not required.
+    fn seek_check(&self, sc: &Scenario, ctx: &mut RunCtx) -> Result<(), Fail> {
+        let data = sc.ops.iter().find(|o| o.k == "frames").map(|o| o.b.clone()).unwrap_or_default();
+        let frames = data.len() / 14;
+        if frames == 0 {
+            return Ok(());
+        }
+        let rate = sc.get("rate").clamp(8000, 384000) as usize;
+        let pf = sc.get("pf").clamp(1, 255) as u8;
+        let stereo = sc.get("stereo_out") != 0;
+        let spf = rate / pf as usize;
+        if spf == 0 {
+            return Ok(());
+        }
+        let ch = if stereo { 2 } else { 1 };
+        let loop_frame = (sc.get("loop").max(0) as usize).min(frames - 1);
+        let mut v = make_vtx(&data[..frames * 14], pf, sc.get("layout").clamp(0, 6) as u8, false);
+        v.loop_start_frame = loop_frame as u16;
+        ctx.probe("position_commands");
+        let mut p: Player<RecAym> = Player::new(v, rate, stereo);
+        // model
+        let (mut frame, mut fs, mut out_n) = (0usize, 0usize, 0u64);
+        let mut exp: Vec<(u64, u8, u8)> = vec![];
+        let mut seeks: Vec<u64> = vec![];
+        for (oi, op) in sc.ops.iter().enumerate() {
+            match op.k.as_str() {
+                "rewind" => {
+                    p.rewind();
+                    frame = 0;
+                    fs = 0;
+                    seeks.push(out_n);
+                }
+                "rewind_loop" => {
+                    p.rewind_loop();
+                    frame = loop_frame;
+                    fs = 0;
+                    seeks.push(out_n);
+                }
+                "set_frame" => {
+                    let j = op.arg(0).max(0) as usize;
+                    let r = p.set_frame(j);
+                    if r != (j < frames) {
+                        return Err(Fail::new("C20.set_frame_result", "", format!("set_frame({}) on a {}-frame log returned {}", j, frames, r)));
+                    }
+                    if j < frames {
+                        frame = j;
+                        fs = 0;
+                        seeks.push(out_n);
+                    }
+                }
+                "play" => {
+                    let len = op.arg(0).clamp(1, 2_000_000) as usize;
+                    let mut buf = vec![f64::NAN; len];
+                    let n = p.play(&mut buf);
+                    // model
+                    let mut m = 0usize;
+                    for _ in 0..len / ch {
+                        if fs == 0 {
+                            if frame >= frames {
+                                break;
+                            }
+                            for r in 0..14 {
+                                let val = data[frame * 14 + r];
+                                if r == 13 && val == 0xFF {
+                                    continue;
+                                }
+                                exp.push((out_n, r as u8, val));
+                            }
+                        }
+                        m += 1;
+                        out_n += 1;
+                        fs += 1;
+                        if fs == spf {
+                            fs = 0;
+                            frame += 1;
+                        }
+                    }
+                    if n != m * ch {
+                        return Err(Fail::new(
+                            "C20.seek_count",
+                            &format!("stereo={}", stereo as u8),
+                            format!("operation #{}: play() into a buffer of {} returned {}, the position model (frame-accurate playback from the last position command) gives {}", oi, len, n, m * ch),
+                        ));
+                    }
+                    ctx.units += 1;
+                }
+                _ => {}
+            }
+        }
+        let log: Vec<(u64, u8, u8)> = WRITES.with(|w| w.borrow().clone());
+        // R13 := 0 writes at the sample index of a position command are not judged (the optional envelope
+        // reset of the command and a frame's own R13 = 0 are indistinguishable there)
+        let skip = |w: &(u64, u8, u8)| w.1 == 13 && w.2 == 0 && seeks.contains(&w.0);
+        let a: Vec<(u64, u8, u8)> = log.into_iter().filter(|w| !skip(w)).collect();
+        let b: Vec<(u64, u8, u8)> = exp.iter().copied().filter(|w| !skip(w)).collect();
+        if a != b {
+            let i = a.iter().zip(b.iter()).position(|(x, y)| x != y).unwrap_or(a.len().min(b.len()));
+            return Err(Fail::new(
+                "C20.seek_schedule",
+                &format!("stereo={}", stereo as u8),
+                format!("after rewind / rewind_loop / set_frame commands at output samples {:?}: register write #{} is {:?}, the position model expects {:?} (sample index, register, value; spf {}, {} frames, loop frame {})", seeks, i, a.get(i), b.get(i), spf, frames, loop_frame),
+            ));
+        }
+        let mut h = Fnv::new();
+        h.u64(3);
+        h.u64(seeks.len().min(5) as u64);
+        h.u8(stereo as u8);
+        ctx.cover(h.get());
+        Ok(())
+    }
+}
+
 impl Property for C20 {
     fn id(&self) -> &'static str {
         "C20"
@@ -170,7 +285,7 @@ impl Property for C20 {
         vec!["sample_rate >= player_frequency (at least one sample per frame); player_frequency >= 1", "in stereo a buffer of length 1 cannot hold a sample pair: play() must return 0 and leave the stream untouched"]
     }
     fn expected_probes(&self) -> Vec<&'static str> {
-        vec!["r13_ff_frame", "stereo_odd_buffer", "stereo_len1_buffer", "zero_frames", "end_reported", "buffer_spans_frames", "load_generated", "load_repo_file", "typed_i8", "typed_i16", "typed_i32", "typed_f32"]
+        vec!["r13_ff_frame", "stereo_odd_buffer", "stereo_len1_buffer", "zero_frames", "end_reported", "buffer_spans_frames", "load_generated", "load_repo_file", "typed_i8", "typed_i16", "typed_i32", "typed_f32", "position_commands"]
     }
 
     fn gen(&self, rng: &mut Rng, tier: Tier, idx: u64) -> Scenario {
@@ -180,7 +295,37 @@ impl Property for C20 {
             6 | 7 => 1,
             _ => 2,
         };
+        let kind = if idx % 20 == 5 || idx % 20 == 15 { 3 } else { kind };
         sc.set("kind", kind);
+        if kind == 3 {
+            // position commands (rewind, rewind_loop, set_frame) between play() calls: playback stays
+            // frame-accurate relative to the new position
+            let frames = rng.range(1, 40);
+            sc.push(Op::blob("frames", &[], rng.bytes(frames as usize * 14)));
+            sc.set("rate", *rng.pick(&[8000i64, 11025, 44100, 48000]));
+            sc.set("pf", *rng.pick(&[50i64, 60, 100, 25, 200]));
+            sc.set("stereo_out", rng.bool() as i64);
+            sc.set("layout", rng.range(0, 6));
+            sc.set("loop", rng.range(0, frames - 1));
+            for _ in 0..rng.range(3, 14) {
+                match rng.below(6) {
+                    0 => sc.op("rewind", &[]),
+                    1 => sc.op("rewind_loop", &[]),
+                    2 => sc.op("set_frame", &[rng.range(0, frames + 2)]),
+                    _ => {
+                        let spf = sc.get("rate") / sc.get("pf");
+                        let len = match rng.below(4) {
+                            0 => rng.range(1, 7),
+                            1 => spf * rng.range(1, 3),
+                            2 => spf * frames + 10,
+                            _ => rng.range(1, 3 * spf),
+                        };
+                        sc.op("play", &[len]);
+                    }
+                }
+            }
+            return sc;
+        }
         if kind == 2 {
             sc.set("repo", (idx % 40 == 8) as i64 * (1 + (idx / 40 % 4) as i64));
             let frames = rng.range(0, 300);
@@ -238,6 +383,7 @@ impl Property for C20 {
     fn exec(&self, sc: &Scenario, ctx: &mut RunCtx) -> Result<(), Fail> {
         match sc.get("kind") {
             2 => return self.load_check(sc, ctx),
+            3 => return self.seek_check(sc, ctx),
             _ => {}
         }
         let data = sc.ops.iter().find(|o| o.k == "frames").map(|o| o.b.clone()).unwrap_or_default();
